@@ -119,14 +119,28 @@ class Harness:
         return ob
 
     def chain(self, name, hyps, lemmas, **kw):
-        """prove the lemmas in order, each under hyps + the earlier lemmas; returns (hyps + all lemmas, lemma obligations).
-        Obligations proved from the returned hypotheses must pass depends=<the lemma obligations>."""
-        hy, obs = list(hyps), []
+        """prove the lemmas in order.  A lemma is (name, formula) - proved under hyps + all earlier lemmas - or
+        (name, formula, uses) - proved from the named EARLIER lemmas only (a focused query: the solver sees a handful of
+        relevant facts instead of the whole axiom set; sound because every one of them is itself proved in this chain).
+        Returns (hyps + all lemmas, lemma obligations, table name -> (formula, obligation)).  Obligations proved from lemma
+        formulas must pass depends=<those lemma obligations>."""
+        hy, obs, tab = list(hyps), [], {}
         kw.setdefault('strategies', ('default', 'nlsat'))
-        for nm, f in lemmas:
-            obs.append(self.prove('%s/lemma:%s' % (name, nm), hy, f, depends=list(obs), **kw))
+        for ent in lemmas:
+            nm, f = ent[0], ent[1]
+            if len(ent) > 2 and ent[2] is not None:
+                ob = self.prove('%s/lemma:%s' % (name, nm), [tab[u][0] for u in ent[2]], f, depends=[tab[u][1] for u in ent[2]], **kw)
+            else:
+                ob = self.prove('%s/lemma:%s' % (name, nm), hy, f, depends=list(obs), **kw)
+            obs.append(ob)
+            tab[nm] = (f, ob)
             hy = hy + [f]
-        return hy, obs
+        return hy, obs, tab
+
+    def focused(self, name, tab, uses, goal, **kw):
+        """obligation proved from the named lemmas of a chain only"""
+        kw.setdefault('strategies', ('default', 'nlsat'))
+        return self.prove(name, [tab[u][0] for u in uses], goal, depends=[tab[u][1] for u in uses], **kw)
 
     def same(self, name, hyps, l, r, ctx, replay=None, key=None, timeout=None):
         """two terms that the real code must make equal (differential obligations between configurations of one operator).
